@@ -22,7 +22,7 @@ func run(e *harness.Env) {
 		"(A2) every 2x2/2x1 image over a 5-value alphabet x every tag pair, (B) every byte string of length<=3 over {00,01,7F,80,FF} x single filter x spelling, " +
 		"(C) every filter chain of length<=3 over {Fl,Fl+PNG,Fl+TIFF,AHx,A85} x name form x DecodeParms form x data incl. 4095/4096/4097/65536-byte patterns, " +
 		"(D) undecodable inputs (bad characters, base-85 overflow, truncated/bit-flipped zlib, PNG tag>4, ragged length): error or original. " +
-		"Every case: Decode on one stream object, the encoded bytes must be unaltered afterwards, and a second Decode of the same object must give the same bytes. " +
+		"Every case: Decode on one stream object, the encoded bytes must be unaltered afterwards, and a second Decode of the same object must give the same bytes; the same object given other contents (a fixed probe) decodes those, and the case's contents again when they are put back. " +
 		"distinct = distinct case descriptors; non-trivial = anything but the unfiltered identity"
 	e.Assumptions = []string{"compress/zlib is a conforming Flate encoder", "harness PNG/TIFF/hex/base-85 encoders follow ISO 32000-1 7.4 and the PNG specification"}
 	predictors(e)
@@ -267,6 +267,23 @@ func again(s *core.Stream, enc, first []byte) (sig, detail string) {
 	}
 	if !bytes.Equal(first, keep) {
 		return "first-result-altered-by-second-decode", fmt.Sprintf("dict: %s\nbefore % x\nafter  % x", s.Dict.String(), head(keep), head(first))
+	}
+	// Stream is a plain struct with exported fields: the same object given other contents must decode the
+	// contents it has now (a fixed hex-encoded probe), and the case's contents again once they are put back.
+	dict, data := s.Dict, s.Data
+	s.Dict, s.Data = core.Dict{"Filter": core.Name("ASCIIHexDecode")}, []byte("50 52 4F 42 45>")
+	if psig, pdet := harness.Guard(func() { got, err = s.Decode() }); psig != "" {
+		return psig, pdet
+	}
+	if err != nil || string(got) != "PROBE" {
+		return "decode-ignores-new-contents-of-stream-object", fmt.Sprintf("after decoding %s the same Stream object was given /ASCIIHexDecode <50 52 4F 42 45>: Decode = % x, %v; want \"PROBE\"", dict.String(), head(got), err)
+	}
+	s.Dict, s.Data = dict, data
+	if psig, pdet := harness.Guard(func() { got, err = s.Decode() }); psig != "" {
+		return psig, pdet
+	}
+	if err != nil || !bytes.Equal(got, keep) {
+		return "decode-ignores-new-contents-of-stream-object", fmt.Sprintf("dict: %s\nafter the probe contents the original contents were put back: Decode = % x, %v; want % x", dict.String(), head(got), err, head(keep))
 	}
 	return "", ""
 }
